@@ -11,6 +11,7 @@
      "dedup"   ms (list of mazes), hs_ok, set_res, set_n, dict_res, dict_first (0-based kept indices)
      "ctor"    kind, R, C, start, end (requested), res, got_start, got_end
      "ds"      ca, cb (compared cfg fields), na, nb (n_mazes), ceq (real cfg == cfg), ma, mb, eq, ne
+     "build"   kind, conn, start, end, sol, res: a maze of the scope could NOT be constructed (res = the exception)
    Layer P = the property's clauses; "M:" clauses only say that the harness / scope model and the
    real objects disagree about something the property does not state. *)
 EXTENDS MazeValue
@@ -67,8 +68,13 @@ DsClauses(r) ==
   \cup If(IsBool(r.ne) /\ Truth(r.ne) # ~e, "ds_ne_truth_table")
   \cup If(~IsBool(r.ceq) \/ (r.ca # r.cb /\ Truth(r.ceq)) \/ (r.ca = r.cb /\ r.na = r.nb /\ ~Truth(r.ceq)), "M:cfg_eq_model")
 
+\* every maze of the scope is well formed (invariant ScopeWellFormed), so a constructor refusing one
+\* makes the kind unusable: "rejected ... iff a coordinate is outside the grid"
+BuildClauses(r) == IF WellFormed(r) THEN {"constructor_rejects_valid_maze"} ELSE {"M:scope_not_well_formed"}
+
 Clauses(r) ==
   CASE r.t = "pair" -> PairClauses(r)
+    [] r.t = "build" -> BuildClauses(r)
     [] r.t = "foreign" -> ForeignClauses(r)
     [] r.t = "dedup" -> DedupClauses(r)
     [] r.t = "ctor" -> CtorClauses(r)
